@@ -159,6 +159,15 @@ def directed():
                    + [["close"]])
         out.append([["q"]] + [["send", S.KINDS[i % 3], "long", "hdr"] for i in range(n)]
                    + [["close"], ["open"], ["adv", 3.0], ["send", "zone_ctrl", "idem", "inline"]])
+    # the application re-opens the socket and sends from inside the disconnected notification
+    # that close() itself emits: that message belongs to the new session
+    for pol in ("idem", "long"):
+        out.append([["q"], ["on_disconnect_open"], ["on_disconnect_send", "zone_ctrl", pol],
+                    ["close"], ["adv", 3.0], ["send", "ac_ctrl", "idem", "inline"],
+                    ["adv", 1.0]])
+        out.append([["q"], ["send", "quick_timer", "idem", "inline"], ["on_disconnect_open"],
+                    ["on_disconnect_send", "zone_ctrl", pol],
+                    ["on_disconnect_send", "ac_ctrl", pol], ["close"], ["adv", 3.0]])
     # a lifetime without end: on a healthy link and across an outage
     out.append([["q"], ["send", "zone_ctrl", "forever", "inline"],
                 ["send", "ac_ctrl", "idem", "inline"], ["send", "quick_timer", "forever", "t1"],
